@@ -295,6 +295,7 @@ _public_ int m_mod_ps_subscribe(m_mod_t *mod, const char *topic, m_src_flags fla
                 if (old_sub->flags == flags) {
                     /* Only update userptr */
                     old_sub->userptr = userptr;
+                    regfree(&regex);
                     return 0;
                 }
                 /* Flags changed: the entry is keyed by the old subscription's topic string, that dies with it; drop it first */
